@@ -42,7 +42,9 @@ RULE = (
     "all ordered pairs of modes as serial requests, seeded sequences of 1-4 requests with background server traffic; chunkings: every "
     "1-cut and every (quick: every second) 2-cut of two short streams, every 1-cut and seeded 2-4-cuts of a longer stream with "
     "multi-byte characters, CRLF, comments, keepalives and junk; exit paths {normal, exception in body, asyncio cancellation, anyio "
-    "cancel scope} x 13-17 points of a request's life x 6 modes. Real sse_client under the virtual-time loop vs SseReq.session; "
+    "cancel scope} x 13-17 points of a request's life x 6 modes; back-pressure: the consumer pauses while bursts of 0/1/99/100/101/150/400 "
+    "server messages (one chunk, one chunk per event, arbitrary cuts) queue up, with a request whose answer travels behind the burst; "
+    "three tie orders (events/timers/io). Real sse_client under the virtual-time loop vs SseReq.session; "
     "non-trivial = distinct case whose stream or request list is non-empty"
 )
 TRUSTED = [
@@ -249,7 +251,20 @@ class Base(Suite):
                 c.pop("exit", None)
                 G.finish(c)
             return c
+        for i, it in enumerate(case.get("items", [])):
+            if it["k"] == "burst" and it["n"] > 0:
+                for n2 in sorted({0, 101, it["n"] // 2, it["n"] - 1}):
+                    if n2 < it["n"]:
+                        c = copy.deepcopy(case)
+                        c["items"][i]["n"] = n2
+                        yield norm(c)
+        if isinstance(case.get("cuts"), str):
+            yield norm(dict(copy.deepcopy(case), cuts=[]))
+        if case.get("pause"):
+            yield norm(dict(copy.deepcopy(case), pause=0))
         for key in ("reqs", "items", "cuts"):
+            if isinstance(case.get(key), str):
+                continue
             for i in range(len(case.get(key, []))):
                 c = copy.deepcopy(case)
                 del c[key][i]
@@ -356,6 +371,27 @@ class Chunking(Base):
         return f"chunking/{len(case.get('cuts', []))}-cuts/gap{case.get('gap', 1)}"
 
 
+class Backpressure(Base):
+    name = "backpressure"
+
+    def cases(self, ctx, budget):
+        ctx.exhaustive_parts.append("backpressure: burst sizes {0,1,99,100,101,150,400} x one chunk / one chunk per event / arbitrary cuts x request behind the burst")
+        return G.backpressure_cases(budget, ctx.sub_rng("c12-backpressure", budget))
+
+    def oracle(self, case, o):
+        if o.get("harness_errors"):
+            return None
+        v = oracle_enter(case, o)
+        if v is None and (o.get("enter") or {}).get("k") == "yielded":
+            v = oracle_requests(case, o)
+        return v
+
+    def kind(self, case, o):
+        n = sum(it.get("n", 0) for it in case.get("items", []) if it["k"] == "burst")
+        modes = [r["mode"] for r in case.get("reqs", [])]
+        return f"backpressure/burst-{n}/{modes[0] if modes else 'no-request'}"
+
+
 class Exits(Base):
     name = "exits"
     what = "release"
@@ -385,4 +421,4 @@ def extra(ctx, tier):
 
 
 def suites():
-    return [Establish(), Requests(), Chunking(), Exits()]
+    return [Establish(), Requests(), Chunking(), Backpressure(), Exits()]
